@@ -341,6 +341,8 @@ def run_check(prop, tier, seed):
     for name, st in merged["stages"].items():
         print("  stage %-28s cases=%-9d wall=%.1fs%s" % (name, st["cases"], st["wall_s"],
                                                           " exhaustive" if st.get("exhaustive") else ""))
+    if os.environ.get("VERIF_PRINT_LABELS"):
+        print("  classes " + json.dumps(dict(sorted(merged["labels"].items()))))
     seen = set()
     for v in merged["violations"]:
         if v["replay"] in seen:
